@@ -928,10 +928,11 @@ func c17Tasks(tier string) []mc.Task {
 	// different weights (the weight of a column travels with the column, not with its rank among the kept ones)
 	for _, model := range c17Models {
 		model := model
-		ts = append(ts, mc.Task{Name: fmt.Sprintf("weights-rmgaps#%s", c17ModelNames[model]), Run: func(c *mc.Ctx) {
-			for _, mf := range []bool{true, false} {
+		for _, mf := range []bool{true, false} {
+			mf := mf
+			ts = append(ts, mc.Task{Name: fmt.Sprintf("weights-rmgaps#%s/mf=%t", c17ModelNames[model], mf), Run: func(c *mc.Ctx) {
 				for _, ga := range c17Alphas {
-					if ga != 0 && ga != 1 && tier != "thorough" {
+					if ga != 0 && tier != "thorough" {
 						continue
 					}
 					cfg := c17Case{Model: model, ModelFreqs: mf, Alpha: ga, RmGaps: true}
@@ -942,8 +943,8 @@ func c17Tasks(tier string) []mc.Task {
 						return !c.Expired()
 					})
 				}
-			}
-		}})
+			}})
+		}
 		// another model object of the same matrix served before (other frequency setting, skewed data)
 		ts = append(ts, mc.Task{Name: fmt.Sprintf("prior-model#%s", c17ModelNames[model]), Run: func(c *mc.Ctx) {
 			for _, mf := range []bool{true, false} {
